@@ -449,7 +449,7 @@ class CShapes:
         if isinstance(e, ast.Name):
             return self.env.get(e.id, UNKNOWN)
         if isinstance(e, ast.Attribute):
-            if norm(e).startswith("self."):
+            if isinstance(e.value, ast.Name) and e.value.id == "self":
                 return self.fields.get(e.attr, self.env.get(norm(e), UNKNOWN))
             v = self.ev(e.value)
             if v[0] == "arr":
@@ -515,14 +515,19 @@ class CShapes:
                 return self.bcast(a, b, e)
             return UNKNOWN
         if isinstance(e, ast.BoolOp):
-            vals = [self.truth(self.ev(v)) for v in e.values]
-            if isinstance(e.op, ast.And):
-                if any(v is False for v in vals):
+            # short-circuit evaluation: operands after a decisive one are not evaluated (and cannot fail)
+            unknown = False
+            for v in e.values:
+                t = self.truth(self.ev(v))
+                if isinstance(e.op, ast.And) and t is False:
                     return ("bool", False)
-                return ("bool", True) if all(v is True for v in vals) else UNKNOWN
-            if any(v is True for v in vals):
-                return ("bool", True)
-            return ("bool", False) if all(v is False for v in vals) else UNKNOWN
+                if isinstance(e.op, ast.Or) and t is True:
+                    return ("bool", True)
+                if t is None:
+                    unknown = True
+            if unknown:
+                return UNKNOWN
+            return ("bool", isinstance(e.op, ast.And))
         if isinstance(e, ast.IfExp):
             t = self.truth(self.ev(e.test))
             if t is True:
